@@ -94,7 +94,10 @@ def check_credentials(req, realm, username=None):
                   auth.get('opaque'), opaque)
         return False
 
-    if not unquote(auth.get('uri', '')).endswith(req.full_path):
+    uri_path, _, uri_query = auth.get('uri', '').partition('?')
+    if '://' in uri_path:   # absolute-URI form of the request target
+        uri_path = '/' + uri_path.split('://', 1)[1].partition('/')[2]
+    if unquote(uri_path) != req.path or uri_query != req.query:
         log.error('Digest: uri %s not equal to %s',
                   auth.get('uri'), req.full_path)
         return False
